@@ -1,0 +1,21 @@
+//go:build verif
+
+// Contracts for the deductive verifier in /verif (comment-only file, compiled
+// only under the "verif" build tag; it adds no code).
+//
+// Syntax: see /verif/DESIGN.md §3.1.3.
+package vm
+
+//@ func vm.loadParamBytes
+//@   verify
+//@   safety [C03 C14]
+//@   requires idx [C14]: index == 0 || index == 1
+//@   let head = math(index) * 32
+//@   let offw = word(input, index * 32)
+//@   let okhead = math(len(input)) >= head + 32
+//@   let okoff = okhead && math(offw) + 32 <= math(len(input))
+//@   let dlen = word(input, uint64(offw))
+//@   let ok = okoff && math(offw) + 32 + math(dlen) <= math(len(input))
+//@   ensures decode-ok [C14]: ok ==> result1 == nil && obj(result0) == obj(input) && math(off(result0)) == math(off(input)) + math(offw) + 32 && math(len(result0)) == math(dlen)
+//@   ensures decode-reject [C14]: !ok ==> result1 != nil
+//@ end
